@@ -24,6 +24,8 @@ def run(project, rep):
     S.m1_from_etree(schema, rep)
     S.m2_update_args(schema, rep)
     V.v_rules(schema, rep)
+    from .. import rules_types as T
+    T.t_r7(project, rep)
     rep.rule("V-R3", "absent children are None: Aggregate.__init__ sets every non-list spec attribute from the keyword of the same name, None when absent, through the descriptor (F-R2)")
     F.f_r2_init(schema, rep)
     Z.z_r4_conversion(project, rep)
